@@ -216,7 +216,9 @@ def conditions(tier):
                 continue
             if edit in ("meta_subconfig", "meta_subconfig_content") and sk not in ("nested", "shared", "deep"):
                 continue
-            if edit == "meta_value" and sk in ("list", "dict", "cyc2") and tier == "quick":
+            if edit == "meta_value" and sk in ("cyc2", "pretask"):
+                continue  # these classes have no Meta parameter
+            if edit == "meta_value" and sk in ("list", "dict") and tier == "quick":
                 continue
             # optional positions left unset when the edit needs a free slot
             fs = [0] * 8 if edit in ("explicit_none", "meta_subconfig", "meta_subconfig_content") else [1] * 8
